@@ -1,8 +1,9 @@
-import PebblesVerif.Proofs.FlatNested1
+import PebblesVerif.Proofs.FlatNested6
 /-!
-A concrete member of the two-level family: `Animal` with `owner : Person`, the leaf fields of both
-types split between services `A` and `B`. The model's answer and its calls are checked by
-evaluation (`#guard`, tests — not obligations).
+Non-vacuity of `flat_nested_calls`: a concrete member of the two-level family — `Animal` with
+`owner : Person`, the leaf fields of both types split between services `A` and `B` — meets every
+hypothesis. The model's answer, its calls and its plan are also checked by evaluation (`#guard`:
+tests that fail the build if the model's behaviour changes — not obligations).
 -/
 namespace PebblesVerif.FlatNested.Example
 open PebblesVerif PebblesVerif.Exec PebblesVerif.Spec PebblesVerif.Flat
@@ -41,6 +42,74 @@ def expected0 : List (String × J) := [("age", .str "7"), ("name", .str "rex"), 
 theorem reference : Spec.eval ctx.schema data op [] =
     some (.obj [("animal", .obj (expected0 ++ [("owner", .obj expectedOwner)]))]) := by
   rfl
+
+theorem fam : Fam ctx "A" "B" "Animal" "Person" "animal" "owner" fs hs where
+  hAB := by decide
+  hAint := by decide
+  hBint := by decide
+  hqb := by simp [isBuiltinName]
+  hqn := by decide
+  hTroot := by decide
+  hne := by decide
+  hnd := by decide
+  hfb := by simp [namesOf, fs, isBuiltinName]
+  hfid := by decide
+  hschemaT := ⟨animalT, by rfl, rfl⟩
+  hschemaQ := ⟨_, by rfl, rfl⟩
+  tumQn := by rfl
+  tumQq := by rfl
+  tumTn := by rfl
+  tumTid := by rfl
+  tumTf := by decide
+  hurlsA := by decide
+  hurlsNd := by decide
+  hkind := rfl
+  hname := rfl
+  famU := {
+    hAB := by decide
+    hTroot := by decide
+    hne := by decide
+    hnd := by decide
+    hfb := by simp [namesOf, hs, isBuiltinName]
+    hfid := by decide
+    hschemaT := ⟨personT, by rfl, rfl⟩
+    tumTn := by rfl
+    tumTid := by rfl
+    tumTf := by decide }
+  hTU := by decide
+  hgb := by simp [isBuiltinName]
+  hgid := by decide
+  hgnew := by decide
+  tumTg := by rfl
+
+theorem setting : Setting ctx "A" "B" "Animal" "Person" "animal" "owner" fs hs svcs schemaA schemaB data entA entP where
+  hq1 := by decide
+  hq2 := by decide
+  hqne := by decide
+  hg1 := by decide
+  hg2 := by decide
+  hgne := by decide
+  hine := by decide
+  hine' := by decide
+  hnne := by decide
+  hnne' := by decide
+  hsA := by rfl
+  hsB := by rfl
+  hSBT := ⟨animalT, by rfl, rfl⟩
+  hSBU := ⟨personT, by rfl, rfl⟩
+  hroot := by rfl
+  hent := by rfl
+  hty := rfl
+  hgref := by rfl
+  hent' := by rfl
+  hty' := rfl
+
+/-- the theorem applied: the gateway's answer for this federation is the single-server answer up to
+    the order of keys under `animal` and under `owner` -/
+theorem applied : ∃ d dg, gateway ctx {} op none (specDownstream svcs data)
+      = .ok ⟨some [("animal", .obj d)], [], callsN ctx "A" "B" "Animal" "Person" "animal" "owner" fs hs entA.id entP.id⟩
+    ∧ d.Perm (expected0 ++ [("owner", .obj dg)]) ∧ dg.Perm expectedOwner :=
+  flat_nested_calls fam setting expected0 expectedOwner reference
 
 /-! ### the model's answer, by evaluation -/
 
